@@ -123,4 +123,19 @@ def Fields.pow2Aligned (cfg : Cfg) : Fields → Prop
   | .cons _ _ t _ r => t.pow2Aligned cfg ∧ Fields.pow2Aligned cfg r
 end
 
+-- no proper bit-field anywhere in the type (a declared width of 0 is not a bit-field for the layout, the reader or the
+-- writer): the domain of the window theorem `read_prefix`
+mutual
+def Ty.noBits : Ty → Bool
+  | .sc _ _ => true
+  | .enum _ _ _ => true
+  | .ptr _ => true
+  | .arr e _ => e.noBits
+  | .struct _ fs => Fields.noBits fs
+  | .union _ fs => Fields.noBits fs
+def Fields.noBits : Fields → Bool
+  | .nil => true
+  | .cons _ _ t bits r => (match bits with | some (_ + 1) => false | _ => true) && t.noBits && Fields.noBits r
+end
+
 end Cstruct
